@@ -713,6 +713,8 @@ async def schedule(ex, spawn, settle):
         if real_time.monotonic() - t0 > wall_limit:
             ex.inconclusive = True          # real-time budget of one schedule: no verdict on completion
             ex.wall_limited = True
+            ex.parked_at_wall_limit = [p.rec["op"] for p in ex.net.pending if not p.done]
+            ex.drain_steps_at_wall_limit = drain_i
             break
         for c in ex.callers:
             if c.state == "holding":
